@@ -951,3 +951,40 @@ TWINS["C01"].append(TW("vi-converged-rewritten", (VI, """            converged=i
     
     def _dict_plan_on""")))
 MUTANTS["C01"].append(M("pi-converged-off-by-one", ["BEL-5"], (PI, "converged=iterations < (self.max_iterations - 1),", "converged=iterations < self.max_iterations,")))
+
+# ----------------------------------------------------------------------------------- C19
+ER = A + "entregpolicyiteration.py"
+MUTANTS["C19"] = [
+    M("prior-scaled-by-weight", ["IMP-1"],
+      (ER, "new_pi = torch.softmax(q_action + torch.log(pi0), -1)", "new_pi = torch.softmax((1/entropy_weight[:,None])*(q + torch.log(pi0)), -1)")),
+    M("q-not-scaled", ["IMP-1"],
+      (ER, "new_pi = torch.softmax(q_action + torch.log(pi0), -1)", "new_pi = torch.softmax(q + torch.log(pi0), -1)")),
+    M("prior-dropped", ["IMP-1"],
+      (ER, "new_pi = torch.softmax(q_action + torch.log(pi0), -1)", "new_pi = torch.softmax(q_action, -1)")),
+    M("softmax-over-states", ["IMP-1"],
+      (ER, "new_pi = torch.softmax(q_action + torch.log(pi0), -1)", "new_pi = torch.softmax(q_action + torch.log(pi0), 0)")),
+    M("system-no-discount", ["EVAL-1"],
+      (ER, "v = torch.linalg.solve(eye - discount_rate*mp, s_rf_ent)", "v = torch.linalg.solve(eye - mp, s_rf_ent)")),
+    M("entropy-sign", ["EVAL-1"],
+      (ER, "s_rf_ent = (s_rf - entropy_weight*s_ent)", "s_rf_ent = (s_rf + entropy_weight*s_ent)")),
+    M("entropy-unweighted", ["EVAL-1"],
+      (ER, "s_rf_ent = (s_rf - entropy_weight*s_ent)", "s_rf_ent = (s_rf - s_ent)")),
+    M("chain-sums-successors", ["EVAL-1"],
+      (ER, "mp = (pi[:,:,None]*tf[:, :, :]).sum(dim=1)", "mp = (pi[:,:,None]*tf[:, :, :]).sum(dim=2)")),
+    M("lookahead-no-discount", ["LOOK-1"],
+      (ER, "q = (tf[:,:,:]*(rf + discount_rate*v[None,None,:])).sum(dim=-1)", "q = (tf[:,:,:]*(rf + v[None,None,:])).sum(dim=-1)")),
+    M("lookahead-values-on-source-axis", ["LOOK-1"],
+      (ER, "q = (tf[:,:,:]*(rf + discount_rate*v[None,None,:])).sum(dim=-1)", "q = (tf[:,:,:]*(rf + discount_rate*v[:,None,None])).sum(dim=-1)")),
+    M("converged-unconditional", ["CONV-1"],
+      (ER, "        if check_convergence:\n            if torch.all(torch.isclose(pi, new_pi)):\n                converged = True\n                break", "        converged = True\n        if check_convergence:\n            if torch.all(torch.isclose(pi, new_pi)):\n                break")),
+    M("returns-new-policy-values-mismatch", ["CONV-1"],
+      (ER, "        policy=pi,\n        action_values=q,", "        policy=pi,\n        action_values=q_action,")),
+    M("wrapper-reward-from-sarm", ["WRAP-1"],
+      (ER, "rf = torch.from_numpy(mdp.reward_matrix.copy())", "rf = torch.from_numpy(mdp.transition_matrix.copy())")),
+    M("wrapper-q-labels-transposed", ["WRAP-1"],
+      (ER, "qf[s][a] = res._qvaluemat[si, ai]", "qf[s][a] = res._qvaluemat[ai, si]")),
+]
+TWINS["C19"] = [
+    TW("softmax-arg-reordered", (ER, "new_pi = torch.softmax(q_action + torch.log(pi0), -1)", "new_pi = torch.softmax(torch.log(pi0) + q_action, -1)")),
+    TW("rhs-inline", (ER, "v = torch.linalg.solve(eye - discount_rate*mp, s_rf_ent)", "v = torch.linalg.solve(eye - mp*discount_rate, s_rf - s_ent*entropy_weight)")),
+]
